@@ -1,6 +1,8 @@
 package scen
 
 import (
+	"fmt"
+
 	"verifharness/chain"
 
 	"github.com/pegnet/pegnetd/fat/fat2"
@@ -73,6 +75,11 @@ func buildCorners(seed int64) (*Scenario, error) {
 	// outputs that name the sender itself, and the same recipient twice: every output is recorded
 	b.TxE(121, 121, "change output and a repeated recipient", alice,
 		XferN(A, USD, Out(Bo, 70*fct), Out(A, 30*fct)), XferN(A, USD, Out(C, 10*fct), Out(C, 5*fct+uint64(rng.Intn(1000)))))
+	// outputs that add up to the input only modulo 2^64 (each below 2^63): not a valid transaction
+	b.TxJSON(122, dave, fmt.Sprintf(`{"version":1,"transactions":[{"input":{"address":"%s","amount":5,"type":"pEUR"},"transfers":[{"address":"%s","amount":6000000000000000000},{"address":"%s","amount":6000000000000000000},{"address":"%s","amount":6446744073709551621}]}]}`,
+		dave.String(), bob.String(), carol.String(), alice.String()))
+	// an input above int64 (a conversion has no outputs to bound it)
+	b.TxJSON(122, dave, fmt.Sprintf(`{"version":1,"transactions":[{"input":{"address":"%s","amount":9223372036854775808,"type":"pEUR"},"conversion":"pUSD"}]}`, dave.String()))
 	// first snapshot height without rates (before 2.0.2)
 	for h := uint32(140); h <= 143; h++ {
 		rateOPR(h)
